@@ -125,7 +125,11 @@ def binding_selftest(ctx, cases, v, kf):
         muts.append(("in-order transfer never reported complete", t))
         muts.append(("unchanged (control: must be accepted)", copy.deepcopy(cases[ok])))
     # the auto-save directory only grows: a file seen once must keep its bytes and must not vanish
-    dk = next((k for k in good if sum(1 for e in cases[k] if e["ev"] == "msg" and e["dir"]) >= 2), None)
+    def persisting(k):
+        # a file that is listed in the last two listings of the auto-save directory (so removing it from the last one = it vanished)
+        ms = [e for e in cases[k] if e["ev"] == "msg" and e["dir"]]
+        return len(ms) >= 2 and ms[-1]["dir"][0]["name"] in [x["name"] for x in ms[-2]["dir"]]
+    dk = next((k for k in good if persisting(k)), None)
     if dk is not None:
         t = copy.deepcopy(cases[dk]); ms = [e for e in t if e["ev"] == "msg" and e["dir"]]
         ms[-1]["dir"][0]["hash"] ^= 1
